@@ -92,6 +92,10 @@ CLAIMED = {
             "validate_schema changes the schema only through the prune (retain) and restore (insert) of built-in scalar definitions on schema.types: the 8-row decision table of the prune closure, the 3-row table of record_type_ref, coverage of all five containers of type references by a loop that records every element's inner named type on every path, the restore loop after the prune on every path, and no other mutable borrow or non-benign interior mutability of the schema / executable document.",
             "Necessary conditions of idempotence (who writes, what the bookkeeping decides, that all references are recorded); equality of the schema before and after re-validation is not decided.",
             "decision tables from MIR path enumeration, loop-relative must-pass-through, may-derive slices, who-writes and type facts", False),
+    "C12": ("other",
+            "Structural necessary conditions of `no component is lost, duplicated or reordered between a Schema and its serialized definitions and extensions`: insertion-ordered collection types, no order-perturbing operation on component collections anywhere in the crate, the definition/extension split of all 7 to_ast implementations (same-named source field, None vs Some(ext) selector, filter/map/collect helper shape), coverage of every component collection by iter_origins, variant dispatch, root-operation pairing, the conditions under which the schema definition is omitted, and the extension emission order (first occurrence over a chain of collections, which cannot agree with every collection's order: five genuine reorderings listed as known findings).",
+            "Round-trip equality and validity after the round trip are not decided; AST printing itself belongs to C08/C09. Known findings: extension order for Object/Interface/Union/Enum/InputObject types, see known_findings.json.",
+            "ADT field type facts + resolved-callee inventory + symbolic (access-path) evaluation of straight-line iterator pipelines and aggregates over rustc MIR; dominating-edge facts for the implicit-definition decision", False),
 }
 
 NOT_APPLICABLE = {
